@@ -137,7 +137,10 @@ def check_case(case, ctx):
                         init, times, term = W.decode_col(c[loc:loc + cap, lane])
                         ri, fa = W.count_rf(init, len(times))
                         exp[a_ctrl[z, 0], lane] += rounds * (ri * int(a_ctrl[z, 1]) + fa * int(a_ctrl[z, 2]))
-                got = np.asarray(sim.abuf)
+                # the accumulators in use are rows 0 .. max(a_ctrl[z, 0]) over the evaluated lines z and the lanes of the simulator; the buffer may be allocated larger
+                n_acc = max([int(a_ctrl[z, 0]) for z in evaluated] + [-1]) + 1        # (accumulators of the lines that are evaluated at all)
+                got = np.asarray(sim.abuf)[:n_acc, :n]
+                exp = exp[:n_acc, :n]
                 ctx.count('abuf_cells', int(exp.size))
                 ctx.count('abuf_nonzero', int((exp != 0).sum()))
                 if got.shape != exp.shape or not np.array_equal(got, exp):
